@@ -25,7 +25,8 @@ META = {
             "(Laurent series over F_p), for n = 1..4, and the exponentiated shift likewise. (3) STRUCTURE: Operator.mu2 (which "
             "couplings enter a segment) follows the documented table over (scheme, threshold flag); the couplings' matching "
             "scales are shifted by xi^2 only in the exponentiated scheme (runner.commons.couplings). (3b) the identity shortcut of Operator.compute is taken only for "
-            "coinciding scales and never on the last operator of the expanded scheme (where K(a, ln xi^2) != 1 from NLO on, also when the coupling distance vanishes).",
+            "coinciding scales and never on the last operator of the expanded scheme (where K(a, ln xi^2) != 1 from NLO on, also when the coupling distance vanishes)."
+            " (3c) Operator.compute_a asks the coupling object for exactly the two scales of Operator.mu2, also on a zero-length segment.",
     "note": "The O(a_s^n) law of complete operators (quadrature, interpolation) is a runtime statement; what is proved is the law "
             "for the integrand in the non-singlet closed form and the exact unit-ratio identity for every kernel.",
     "technique": "differential partial evaluation + polynomial identity testing + Laurent-series valuation; truth table by exhaustive PE",
@@ -93,6 +94,53 @@ def _unit_case(rec, case):
             rec.decide(ok, "unit-ratio-reproduces-unvaried-kernel", fe.qname,
                        f"order=({n},{m}), sector ({m0},{m1}), {scheme}, running={running}: with xi=1 the QED kernel differs from "
                        f"the unvaried one", where=fe.where, instance=f"({n},{m}),{m0},{scheme},{running}", how="differential PE + PIT")
+
+
+def end_point_couplings(chk, src, rule="end-point-couplings-follow-the-mu2-table"):
+    """Operator.compute_a asks the coupling object for exactly the two scales of Operator.mu2 - also for a segment of zero length,
+    where in the expanded scheme the final coupling still sits at xif2 mu_to^2 (the compensating evolution between the two is what
+    makes the varied operator agree with the central one to the working order)."""
+    from ..pe import Opaque
+
+    ocls = src.cls(OP)
+    f = ocls.methods["compute_a"]
+    n = 0
+    for thr in (False, True):
+        for scheme in (None, "exponentiated", "expanded"):
+            for q_to in (Fraction(20), Fraction(10)):
+                pe = PE(src)
+                asked = []
+
+                class SC(Opaque):
+                    def a(self, scale_to=None, nf_to=None, **k):
+                        asked.append(scale_to)
+                        return Arr.from_nested([dag.sym(f"as{len(asked)}"), dag.sym(f"aem{len(asked)}")])
+
+                o = Obj(ocls)
+                mg = Opaque()
+                mg.couplings = SC()
+                svm = {k.lower(): v for k, v in pe.enum_members(pe.get_global("eko.io.types", "ScaleVariationsMethod").cls).items()}
+                o.attrs.update(managers=mg, nf=4, order=(3, 0), q2_from=Fraction(10), q2_to=q_to, is_threshold=thr,
+                               config={"ModSV": svm.get(scheme) if scheme else None, "xif2": Fraction(2)})
+                inst = f"scheme={scheme},threshold={thr},mu2_from=10,mu2_to={q_to},xif2=2"
+                try:
+                    want = list(pe.getattr(o, "mu2"))
+                    got = pe.apply(pe.getattr(o, "compute_a"), [], {})
+                except PERaise as e:
+                    chk.fail(rule, f.qname, f"{inst}: raises {e}", where=f.where, instance=inst)
+                    continue
+                n += 1
+                vals = [dag.as_const(dag.tonode(x)) for x in asked]
+                # the two returned couplings are the answers to requests at mu2[0] and mu2[1] (a request may be shared when they coincide)
+                ok = isinstance(got, tuple) and len(got) == 2 and set(vals) == {Fraction(w) for w in want} and \
+                    all(dag.as_const(dag.tonode(asked[int(str(g_[0].payload)[2:]) - 1])) == Fraction(w) for g_, w in zip(got, want)
+                        if isinstance(g_, Arr) and getattr(g_[0], "op", None) == "sym")
+                chk.decide(ok, rule, f.qname,
+                           f"{inst}: couplings requested at {[str(v) for v in vals]}, required at {[str(w) for w in want]} (Operator.mu2) - with the final "
+                           f"coupling of a zero-length expanded segment taken at mu_from^2 the evolution that compensates K(a_s, ln xif2) is dropped and the "
+                           f"varied operator differs from the central one at relative O(a_s)", where=f.where, instance=inst,
+                           how="PE with a recording coupling object")
+    chk.floor("end-point coupling requests", n, 12)
 
 
 def shortcut_rule(chk, src, rule="shortcut-never-drops-the-expanded-factor"):
@@ -280,6 +328,7 @@ def run(chk):
     n_tab = mu2_table(chk, src, pe2)
     chk.floor("mu2 table rows", n_tab, 6)
     shortcut_rule(chk, src)
+    end_point_couplings(chk, src)
     fc = src.func("eko.runner.commons.couplings")
     # evaluated with a recording Couplings class for the three schemes: the matching ratios handed to the couplings are the squared
     # ratios of the card, times xif^2 in the exponentiated scheme only
